@@ -178,7 +178,12 @@ type recAdapter struct {
 	Content []prule
 	Log     []string
 	FailIn  int // -1: never; k: the (k+1)-th call from now fails
+	// BatchNotImpl: the batch calls answer the tolerated "not implemented" (an adapter with the
+	// single-rule auto-save calls only); used by implementation-only predicates, not by the model
+	BatchNotImpl bool
 }
+
+var errNotImplemented = errors.New("not implemented")
 
 func newRecAdapter() *recAdapter { return &recAdapter{FailIn: -1} }
 
@@ -315,6 +320,9 @@ func (a *recAdapter) RemoveFilteredPolicy(sec, pt string, fi int, fvs ...string)
 	return nil
 }
 func (a *recAdapter) AddPolicies(sec, pt string, rules [][]string) error {
+	if a.BatchNotImpl {
+		return errNotImplemented
+	}
 	if err := a.enter("addmany " + Q(pt) + rulesKey(rules)); err != nil {
 		return err
 	}
@@ -324,6 +332,9 @@ func (a *recAdapter) AddPolicies(sec, pt string, rules [][]string) error {
 	return nil
 }
 func (a *recAdapter) RemovePolicies(sec, pt string, rules [][]string) error {
+	if a.BatchNotImpl {
+		return errNotImplemented
+	}
 	if err := a.enter("removemany " + Q(pt) + rulesKey(rules)); err != nil {
 		return err
 	}
